@@ -14,6 +14,7 @@ func init() {
 		pkgs := []*packages.Package{c.Pkg("fp"), c.Pkg("statet")}
 		Stale(c, "R-STALE", pkgs, 25, 15)
 		FailStop(c, "R-FAILSTOP", pkgs, 1)
+		FailState(c, "R-FAILSTATE", pkgs, 1)
 		Rel(c, "R-REL", []*packages.Package{c.Pkg("statet")}, func(p *packages.Package, fd *ast.FuncDecl, fn *types.Func) bool { return true }, nil, 100)
 		Rel(c, "R-REL", []*packages.Package{c.Pkg("fp")}, func(p *packages.Package, fd *ast.FuncDecl, fn *types.Func) bool {
 			sig := fn.Type().(*types.Signature)
